@@ -306,7 +306,8 @@ def run_harness(pretty, fn, spec, meta, prop):
             cbout = base + ".cbmc.txt"
             with open(cbout, "w") as co:
                 # drop per-iteration unwinding chatter, keep everything else
-                p1 = subprocess.Popen(cb, stdout=subprocess.PIPE, stderr=subprocess.STDOUT,
+                p1 = subprocess.Popen(["/usr/bin/time", "-f", "MAXRSS_KB=%M", "-o", base + ".time"] + cb,
+                                      stdout=subprocess.PIPE, stderr=subprocess.STDOUT,
                                       preexec_fn=limit(spec.mem))
                 p2 = subprocess.Popen(["grep", "-a", "-v", "-E", "^(Unwinding loop|aborting path)"],
                                       stdin=p1.stdout, stdout=co)
@@ -326,6 +327,11 @@ def run_harness(pretty, fn, spec, meta, prop):
                 p2.wait()
             txt = open(cbout, errors="replace").read()
             res["stats"] = parse_stats(txt)
+            try:
+                mrss = re.search(r"MAXRSS_KB=(\d+)", open(base + ".time").read())
+                res["stats"]["peak_rss_mb"] = int(mrss.group(1)) // 1024 if mrss else None
+            except OSError:
+                pass
             res["rc"] = p1.returncode
             if "** Results:" not in txt:
                 if "Out of memory" in txt or "std::bad_alloc" in txt or p1.returncode in (-6, -9, -11, 134, 137):
@@ -335,6 +341,9 @@ def run_harness(pretty, fn, spec, meta, prop):
                 return res
             res["checks"] = parse_results(txt)
             classify(res)
+            if "ran out of memory" in txt and res["status"] != "counterexample":
+                res["status"] = "inconclusive"
+                res["reason"] = f"SAT solver ran out of memory (cap {spec.mem} GB): " + res["reason"][:200]
             return res
     except subprocess.TimeoutExpired:
         res["reason"] = "goto pipeline timeout"
@@ -345,7 +354,8 @@ def run_harness(pretty, fn, spec, meta, prop):
     finally:
         res["wall_s"] = round(time.time() - t0, 2)
         try:
-            os.remove(out)
+            if not os.environ.get("VERIF_KEEP"):
+                os.remove(out)
         except OSError:
             pass
 
@@ -515,8 +525,12 @@ def replay(prop, r, keep=False):
     if not tests:
         return "error", rpath, "kani produced no concrete playback test (see playback.log)"
     uniq = []
+    seen_names = set()
     for t in tests:
-        if t not in uniq:
+        mname = re.search(r"fn (kani_concrete_playback_[A-Za-z0-9_]+)", t)
+        key = mname.group(1) if mname else t
+        if key not in seen_names:
+            seen_names.add(key)
             uniq.append(t)
     body = ""
     names = []
@@ -534,7 +548,7 @@ def replay(prop, r, keep=False):
               f"// failing checks: {failing}\n// module file: {module_src(spec.module)}\n"
               f"// re-run: /verif/check --replay {rpath}\n")
     open(rpath, "w").write(header + "#[cfg(kani)]\nmod verif_replay {\n" + body + "}\n")
-    verdict, detail = run_replay_file(rpath)
+    verdict, detail = run_replay_file(rpath, os.path.join(WORK, prop, "harness-snapshot"))
     return verdict, rpath, detail
 
 
@@ -546,7 +560,7 @@ def module_src(module):
     return f"crates/core/src/{p}.rs"
 
 
-def run_replay_file(rpath):
+def run_replay_file(rpath, harness_snapshot=None):
     txt = open(rpath).read()
     m = re.search(r"// module file: (\S+)", txt)
     if not m:
@@ -556,16 +570,35 @@ def run_replay_file(rpath):
     try:
         subprocess.run(["rsync", "-a", "--exclude", "target", "--exclude", ".git", REPO + "/", scratch + "/"], check=True)
         body = txt.split("#[cfg(kani)]", 1)[1]
+        if harness_snapshot and os.path.isdir(harness_snapshot):
+            # the scratch copy includes the harness files as they were when the counterexample was found
+            subprocess.run(f"grep -rl '/verif/harness/' {scratch}/crates/core/src | xargs sed -i 's#\"/verif/harness/#\"{harness_snapshot}/#'",
+                           shell=True, check=False)
         with open(os.path.join(scratch, modfile), "a") as f:
             f.write("\n#[cfg(kani)]" + body)
-        env = dict(os.environ, CARGO_NET_OFFLINE="true", CARGO_TERM_COLOR="never")
+        env = dict(os.environ, CARGO_NET_OFFLINE="true", CARGO_TERM_COLOR="never",
+                   CARGO_TARGET_DIR=os.path.join(WORK, "replay-target"))
         results = {}
+        kani_home = os.path.expanduser("~/.kani/kani-0.68.0")
         for prof in ("dev", "release"):
-            cmd = ["cargo", "kani", "playback", "-Z", "concrete-playback", "-p", "rustic_core", "--lib"]
+            # what `cargo kani playback` runs (kani-driver 0.68), plus --release / overflow-checks=off for the
+            # profile users run
+            flags = ["-Coverflow-checks=" + ("on" if prof == "dev" else "off"), "-Zunstable-options",
+                     "-Ztrim-diagnostic-paths=no", "-Zhuman_readable_cgu_names", "-Zalways-encode-mir", "--cfg=kani",
+                     "-Zcrate-attr=feature(register_tool)", "-Zcrate-attr=register_tool(kanitool)",
+                     "--force-warn", "unstable_features", "--sysroot", kani_home + "/playback",
+                     "-L", kani_home + "/playback/lib", "--extern", "force:kani", "--extern",
+                     "noprelude,nounused:std=" + kani_home + "/playback/lib/libstd.rlib"]
+            penv = dict(env, CARGO_ENCODED_RUSTFLAGS="\x1f".join(flags), RUSTC=kani_home + "/bin/kani-compiler",
+                        CARGO_TERM_PROGRESS_WHEN="never", CARGO_PROFILE_RELEASE_LTO="off",
+                        CARGO_PROFILE_RELEASE_DEBUG="0")
+            cmd = [kani_home + "/toolchain/bin/cargo", "test", "-p=rustic_core", "--lib", "--target",
+                   "x86_64-unknown-linux-gnu", "-Zhost-config", "-Ztarget-applies-to-host",
+                   '--config=host.rustflags=["--cfg=kani_host"]']
             if prof == "release":
                 cmd.append("--release")
             cmd += ["--", "kani_concrete_playback"]
-            p = subprocess.run(cmd, cwd=scratch, env=env, stdout=subprocess.PIPE, stderr=subprocess.STDOUT,
+            p = subprocess.run(cmd, cwd=scratch, env=penv, stdout=subprocess.PIPE, stderr=subprocess.STDOUT,
                                text=True, errors="replace")
             logp = rpath + f".{prof}.log"
             open(logp, "w").write(" ".join(cmd) + "\n" + p.stdout[-20000:])
@@ -627,6 +660,7 @@ def write_evidence(prop, tier, seed, results, wall, codegen_s, nviol, known_line
             "sat_vars": r["stats"].get("sat_vars"), "sat_clauses": r["stats"].get("sat_clauses"),
             "solver_queries": r["stats"].get("solver_queries"),
             "symex_s": r["stats"].get("symex_s"), "solver_s": r["stats"].get("solver_s"),
+            "peak_rss_mb": r["stats"].get("peak_rss_mb"),
             "wall_s": r["wall_s"], "timeout_s": spec.timeout, "mem_cap_gb": spec.mem,
         })
         for a in spec.assume:
@@ -699,6 +733,9 @@ def main():
     tier = a.tier if a.tier in ("quick", "thorough") else "quick"
     t0 = time.time()
     os.makedirs(os.path.join(WORK, prop), exist_ok=True)
+    # one run per property at a time (runs share WORK/<prop>)
+    proplock = open(os.path.join(WORK, prop, "run.lock"), "w")
+    fcntl.flock(proplock, fcntl.LOCK_EX)
     sel = select(specs, prop, tier, a.only)
     if not sel:
         print(f"no harness registered for {prop} ({tier})")
@@ -709,6 +746,9 @@ def main():
         import random
         random.Random(seed).shuffle(sel)
     print(f"[{prop}/{tier}] {len(sel)} harness(es); codegen from {REPO} working tree ...", flush=True)
+    snap = os.path.join(WORK, prop, "harness-snapshot")
+    shutil.rmtree(snap, ignore_errors=True)
+    shutil.copytree(HARNESS_DIR, snap)
     metas, cg_s, err = run_codegen(prop, sel, os.path.join(WORK, prop, "codegen.log"))
     if err:
         print(f"INCONCLUSIVE property={prop}: {err}")
@@ -735,7 +775,7 @@ def main():
                 lock.notify_all()
         st = r["stats"]
         print(f"  {r['status']:<14} {fn}  wall={r['wall_s']}s symex={st.get('symex_s', '?')}s solver={st.get('solver_s', '?')}s "
-              f"steps={st.get('steps', '?')} vccs={st.get('vccs', '?')} checks={r.get('n_success', '?')}/{r.get('n_checks', '?')}"
+              f"rss={st.get('peak_rss_mb', '?')}MB steps={st.get('steps', '?')} vccs={st.get('vccs', '?')} checks={r.get('n_success', '?')}/{r.get('n_checks', '?')}"
               + (f"  -- {r['reason'][:300]}" if r["reason"] else ""), flush=True)
         return r
 
